@@ -2,7 +2,7 @@
   C08 — executable model of a GraphQL WebSocket session of api-fu, as an interleaving transition
   system. Core Lean only (linked into the driver `c08model`).
 
-  What is transliterated (Go file:lines of the pinned tree, with the three C08 fix patches applied):
+  What is transliterated (Go files of the pinned tree with the four C08 fix patches applied):
 
   * graphql/transport/graphqlws/connection.go and graphql/transport/graphqltransportws/connection.go
       - `handleMessage` dispatch of both sub-protocols (message type → action, the `didInit` gates,
@@ -30,8 +30,11 @@
   Go's map iteration order in `HandleClose` (the model stops subscriptions in list order; only
   per-source counts are observable), logging.
 
-  The three defects fixed by /verif/repo-patches/C08 are switchable (`Cfg`): the theorems are about
-  `Cfg.fixed`‐style configurations, the pre-fix behaviour is kept to state the negation witnesses.
+  Three of the four defects fixed by /verif/repo-patches/C08 are switchable (`Cfg.pingFix`,
+  `reuseFix`, `sendFix`, all `true` by default): the theorems hold for every `Cfg` unless they name a
+  switch, the pre-fix behaviour is kept to state the negation witnesses. Fix 04 (registration and
+  `Serve` under one lock) is what makes the model's initial state — registered *and* serving — the
+  first state any other goroutine can see.
 -/
 namespace ApiFu.C08
 
